@@ -73,6 +73,38 @@ func moreAnchors() {
 		}
 	}
 	emitSL("NTLM_CONTEXT_CACHE_ARGS", nargs)
+	// the cache in which a legacy tunnel waits for its second request: how it is made, and every use of it in
+	// the protocol package (a use other than Get/Set/ItemCount - an eviction hook, a flush - would act on
+	// tunnels that may be live)
+	var init []string
+	uses := map[string]bool{}
+	for _, rel := range []string{"cmd/rdpgw/protocol/gateway.go", "cmd/rdpgw/protocol/tunnel.go", "cmd/rdpgw/protocol/track.go", "cmd/rdpgw/protocol/common.go", "cmd/rdpgw/protocol/process.go"} {
+		f := load(rel)
+		for _, d := range f.Decls {
+			if gd, ok := d.(*ast.GenDecl); ok {
+				for _, sp := range gd.Specs {
+					if vs, ok := sp.(*ast.ValueSpec); ok && len(vs.Names) == 1 && vs.Names[0].Name == "c" && len(vs.Values) == 1 {
+						init = append(init, exprString(vs.Values[0]))
+					}
+				}
+			}
+		}
+		ast.Inspect(f, func(n ast.Node) bool {
+			if se, ok := n.(*ast.SelectorExpr); ok {
+				if id, ok := se.X.(*ast.Ident); ok && id.Name == "c" && rel == "cmd/rdpgw/protocol/gateway.go" {
+					uses[se.Sel.Name] = true
+				}
+			}
+			return true
+		})
+	}
+	var ul []string
+	for u := range uses {
+		ul = append(ul, u)
+	}
+	sort.Strings(ul)
+	emitSL("TUNNEL_CACHE_INIT", init)
+	emitSL("TUNNEL_CACHE_USES", ul)
 }
 
 // configAnchors: the key-length tests, the fatal checks and the default map of config.Load.
